@@ -55,6 +55,9 @@ struct TEnd {
     uint64_t accepted_before_first_enable = 0;
     bool backlog_at_reenable = false;       //! the descriptor went through a disable()/enable() cycle
     uint64_t sends_since_sc = 0;
+    int hk = 0;                     //! buffer housekeeping by the user: 0 never, 1 sometimes, 2 often (shrink calls, Buffer copies)
+    uint64_t kw_mark = 0; bool kw_mark_ok = false;  //! bytes in the kernel right after the last send() (exact transports only)
+    bool prefix_likely = false;     //! the receive buffer was last left with unread bytes behind a consumed prefix
     std::deque<uint32_t> sc_plan, rx_plan;  //! sends to issue from inside the next send-complete / receive callbacks
     int teardown_at = 0;            //! 1 inside next receive cb, 2 inside next send-complete cb, 3 inside the close report
     int close_action = 0;           //! bfd: 0 disable, 1 disable + deferred delete, 2 deferred delete only
@@ -224,7 +227,9 @@ void t_send(TEnd &t, size_t n, const char *ctx) {
     }
     t.out->accepted += n;
     ++t.sends_since_sc;
+    t.kw_mark_ok = false;
     if (exact && kernel_written_upper(t, after)) {
+        t.kw_mark = after; t.kw_mark_ok = true;
         uint64_t d = after - before;
         if (t.running && queue_empty) {
             if (d == n) vh::counter("direct_write_complete");
@@ -280,6 +285,93 @@ void perform_teardown(TEnd &t, bool in_cb) {
     t.do_teardown(in_cb);
 }
 
+// ---------------------------------------------------------------- buffer housekeeping a user may do at any time
+// Buffer::shrink() (= BufferedFd::shrinkRecvBuffer()/shrinkSendBuffer()) and copying the Buffer handed to the receive
+// callback must not change a single unread byte, whatever the read offset of the buffer is.
+
+//! the receive buffer must still hold exactly f[consumed, consumed+n)
+bool recv_window_intact(TEnd &t, Buffer &b, size_t expect, const char *key, const char *what) {
+    Link &l = *t.link;
+    size_t n = b.readableSize();
+    long bad = n == expect ? fdiff(t.in->id, t.consumed, b.readableBegin(), n) : 0;
+    if (n == expect && bad < 0) return true;
+    if (n != expect)
+        vh::viol(key, vh::fmt("%s: %s changed the number of unread bytes from %zu to %zu", t.nm, what, expect, n));
+    else
+        vh::viol(key, vh::fmt("%s: after %s the unread bytes (stream offsets [%llu,%llu)) differ at offset %llu: %s", t.nm, what,
+                 (unsigned long long)t.consumed, (unsigned long long)(t.consumed + n), (unsigned long long)(t.consumed + bad),
+                 explain(t.in->id, t.consumed + bad, b.readableBegin() + bad, n - bad).c_str()));
+    l.broken = true;
+    return false;
+}
+
+//! shrink the receive buffer; prefix = it certainly has unread bytes behind a consumed prefix (read offset > 0)
+void recv_shrink(TEnd &t, Buffer &b, bool prefix, const char *ctx) {
+    size_t before = b.readableSize();
+    bool via_fd = t.bfd_r && g->r->chance(2, 3);
+    if (via_fd) t.bfd_r->shrinkRecvBuffer(); else b.shrink();
+    vh::counter("shrink_recv");
+    if (prefix) vh::counter("shrink_recv_with_unread_behind_consumed_prefix");
+    else if (before) vh::counter("shrink_recv_with_unread_data");
+    g->log(vh::fmt("%s.shrink_recv%s", t.nm, ctx));
+    g->sig.add(0x71); g->sig.add(prefix);
+    recv_window_intact(t, b, before, "recv/shrink-changed-unread-bytes", via_fd ? "shrinkRecvBuffer()" : "Buffer::shrink()");
+    t.prefix_likely = false;
+}
+
+//! the callback takes a copy of the Buffer it was given (copy construction or copy assignment) and reads the copy
+void recv_copy_check(TEnd &t, Buffer &b, bool prefix) {
+    Link &l = *t.link;
+    bool assign = g->r->chance(1, 2);
+    Buffer c2(7);
+    if (assign) { uint8_t junk[5] = {1, 2, 3, 4, 5}; c2.append(junk, 5); c2.hasRead(2); c2 = b; }
+    else { Buffer c1(b); c2.swap(c1); }
+    vh::counter("recv_buffer_copied_in_callback");
+    if (prefix) vh::counter("recv_buffer_copied_behind_consumed_prefix");
+    g->sig.add(0x72); g->sig.add(prefix);
+    size_t n = b.readableSize();
+    if (c2.readableSize() != n) {
+        vh::viol("recv/buffer-copy-differs", vh::fmt("%s: a copy (%s) of the receive buffer holds %zu readable bytes, the original %zu",
+                                                     t.nm, assign ? "assignment" : "construction", c2.readableSize(), n));
+        l.broken = true;
+        return;
+    }
+    long bad = fdiff(t.in->id, t.consumed, c2.readableBegin(), n);
+    if (bad >= 0) {
+        vh::viol("recv/buffer-copy-differs", vh::fmt("%s: a copy (%s) of the receive buffer (stream offsets [%llu,%llu), taken %s) differs from the "
+                 "original at offset %llu: %s", t.nm, assign ? "assignment" : "construction", (unsigned long long)t.consumed,
+                 (unsigned long long)(t.consumed + n), prefix ? "behind a consumed prefix" : "with nothing consumed in this callback",
+                 (unsigned long long)(t.consumed + bad), explain(t.in->id, t.consumed + bad, c2.readableBegin() + bad, n - bad).c_str()));
+        l.broken = true;
+    }
+    // the original must be untouched by having been copied
+    if (!l.broken) recv_window_intact(t, b, n, "recv/buffer-copy-differs", "copying it");
+}
+
+//! shrinkSendBuffer(); what the peer reads afterwards is judged by the position code
+void send_shrink(TEnd &t, const char *ctx) {
+    if (!t.bfd_w || t.torn) return;
+    Link &l = *t.link;
+    uint64_t kw = 0;
+    bool exact = l.tr != kTcp && !tpeer(t) && kernel_written_upper(t, kw);
+    bool queued = exact && kw < t.out->accepted;
+    bool partly = queued && t.running && t.kw_mark_ok && kw > t.kw_mark;    //! the write callback drained part of the queue since the last append
+    t.bfd_w->shrinkSendBuffer();
+    vh::counter("shrink_send");
+    if (partly) vh::counter("shrink_send_with_partly_drained_queue");
+    else if (queued) vh::counter("shrink_send_with_untouched_queue");
+    g->log(vh::fmt("%s.shrink_send%s", t.nm, ctx));
+    g->sig.add(0x73); g->sig.add(partly);
+}
+
+//! housekeeping from outside any callback
+void housekeeping_step(TEnd &t, vh::Rng &r) {
+    if (t.torn || t.close_reports) return;
+    if (t.bfd_w && r.chance(3, 5)) { send_shrink(t, ""); return; }
+    Buffer *b = t.rbuf ? t.rbuf() : nullptr;
+    if (b && t.in_cb == 0) recv_shrink(t, *b, false, t.prefix_likely && b->readableSize() ? "(likely behind a prefix)" : "");
+}
+
 // ---------------------------------------------------------------- monitors (called from the library's callbacks)
 
 void on_rx(TEnd &t, Buffer &b) {
@@ -332,6 +424,15 @@ void on_rx(TEnd &t, Buffer &b) {
     if (k == rsz) b.hasReadAll(); else b.hasRead(k);
     t.consumed += k;
     if (k < rsz) vh::counter("receive_cb_left_unconsumed");
+    bool prefix = k > 0 && k < rsz;         //! unread bytes behind a prefix consumed just now: the read offset is certainly > 0
+    t.prefix_likely = prefix || (k == 0 && t.prefix_likely);
+    if (t.hk) {
+        unsigned pc = t.hk == 2 ? 35 : 10;
+        if (g->r->chance(pc, 100)) recv_copy_check(t, b, prefix);
+        if (!l.broken && g->r->chance(pc, 100)) recv_shrink(t, b, prefix, "@rx");
+        if (!l.broken && t.bfd_w && g->r->chance(pc, 100)) send_shrink(t, "@rx");
+        if (l.broken) { b.hasReadAll(); --t.in_cb; return; }
+    }
     while (!t.rx_plan.empty() && !t.torn) { uint32_t n = t.rx_plan.front(); t.rx_plan.pop_front(); t_send(t, n, "@rx"); }
     if (t.teardown_at == 1 && !t.torn && t.do_teardown) { t.teardown_at = 0; g->log(vh::fmt("%s.teardown@rx", t.nm)); vh::counter("teardown_in_receive_cb"); perform_teardown(t, true); }
     --t.in_cb;
@@ -359,6 +460,11 @@ void on_sc(TEnd &t) {
     }
     if (t.sends_since_sc == 0) vh::counter("send_complete_repeated_without_send");
     t.sends_since_sc = 0;
+    if (t.hk && g->r->chance(t.hk == 2 ? 35 : 10, 100)) {
+        if (t.bfd_w) send_shrink(t, "@sc");
+        Buffer *rb = (t.bfd_r && t.rbuf) ? t.rbuf() : nullptr;     //! on the Tcp classes the receive buffer is only handed out in the receive callback
+        if (rb && g->r->chance(1, 2)) recv_shrink(t, *rb, false, t.prefix_likely && rb->readableSize() ? "@sc(likely behind a prefix)" : "@sc");
+    }
     while (!t.sc_plan.empty() && !t.torn) { uint32_t n = t.sc_plan.front(); t.sc_plan.pop_front(); t_send(t, n, "@sc"); }
     if (t.teardown_at == 2 && !t.torn && t.do_teardown) { t.teardown_at = 0; g->log(vh::fmt("%s.teardown@sc", t.nm)); vh::counter("teardown_in_send_complete_cb"); perform_teardown(t, true); }
     --t.in_cb;
@@ -653,6 +759,7 @@ void plan_close(Link &l, vh::Rng &r) {
 void generic_step(Link &l, vh::Rng &r, bool allow_close) {
     TEnd *tx = (l.has_t2 && r.chance(1, 2)) ? &l.t2 : &l.t;
     unsigned k = (unsigned)r.below(100);
+    if (tx->hk && (tx->bfd_w || tx->bfd_r) && r.chance(tx->hk == 2 ? 14 : 5, 100)) { housekeeping_step(*tx, r); return; }
     if (k < 28) t_send(*tx, pick_size(r, true), "");
     else if (k < 36) { int c = (int)r.range(2, 6); for (int i = 0; i < c; ++i) t_send(*tx, pick_size(r, false), ""); vh::counter("bursts"); }
     else if (k < 56) {
@@ -763,6 +870,7 @@ void run_bfd_case(vh::Rng &r, const BfdCfg &cfg) {
     static const size_t th[] = {0, 1, 7, 4096};
     if (cfg.threshold_i >= 0) { t.threshold = th[cfg.threshold_i]; t.cons = cfg.cons; } else cfg_rx(t, r);
     t.close_action = (int)r.below(3);
+    { static const int hks[] = {0, 0, 1, 1, 2}; t.hk = r.pick(hks); }
     t.running = false; t.ever_enabled = false;
     if (l.tr == kPipe) {
         bool rw = r.chance(1, 3);       //! the repo's own tests initialise both pipe ends read-write
@@ -788,7 +896,8 @@ void run_bfd_case(vh::Rng &r, const BfdCfg &cfg) {
         else { if (bw) delete bw; if (br && br != bw) delete br; }
     };
     bfd_wire(t);
-    w.log(vh::fmt("bfd %s/%s sndbuf(T=%d,R=%d) thr=%zu cons=%d:", trname(l.tr), w.engine.c_str(), sb_t, sb_r, t.threshold, t.cons));
+    w.log(vh::fmt("bfd %s/%s sndbuf(T=%d,R=%d) thr=%zu cons=%d hk=%d:", trname(l.tr), w.engine.c_str(), sb_t, sb_r, t.threshold, t.cons, t.hk));
+    w.sig.add(t.hk);
     w.sig.add(trk); w.sig.add(t.threshold); w.sig.add(t.cons); w.sig.add(w.engine == "select");
 
     bool start_enabled = cfg.start_enabled >= 0 ? cfg.start_enabled != 0 : r.chance(1, 2);
@@ -861,7 +970,7 @@ struct TcpWorld {
     Link *pending_server_link = nullptr;    //! link whose server side is expected to connect next
     Link *client_link = nullptr;            //! current link of the TcpClient
     int client_fd_candidate = -1;
-    size_t threshold = 0; int cons = 4;
+    size_t threshold = 0; int cons = 4; int hk = 0;
     int sb_t = 0, sb_r = 0;
     int client_generations = 0;
     bool auto_reconnect = false;
@@ -899,6 +1008,7 @@ Link *new_link(Transport tr) {
     l.t.out = &l.t2r; l.t.in = &l.r2t;
     l.raw.in = &l.t2r; l.raw.out = &l.r2t;
     l.t.threshold = tw->threshold; l.t.cons = tw->cons;
+    l.t.hk = l.t2.hk = tw->hk;
     return &l;
 }
 
@@ -1049,9 +1159,11 @@ void run_tcp_case(vh::Rng &r) {
     static const int sbufs[] = {4608, 16384, 65536, 0};
     T.sb_t = r.pick(sbufs); T.sb_r = r.pick(sbufs);
     { TEnd tmp; cfg_rx(tmp, r); T.threshold = tmp.threshold; T.cons = tmp.cons; }
+    { static const int hks[] = {0, 0, 1, 1, 2}; T.hk = r.pick(hks); }
     bool conn_active = r.chance(1, 2);      //! arrangement 2: connector (active) or acceptor (passive)
-    w.log(vh::fmt("tcp arr=%d%s %s/%s sndbuf(T=%d,R=%d) thr=%zu cons=%d:", T.arrangement, T.arrangement == 2 ? (conn_active ? "c" : "a") : "",
-                  T.unix_family ? "unix" : "inet", w.engine.c_str(), T.sb_t, T.sb_r, T.threshold, T.cons));
+    w.log(vh::fmt("tcp arr=%d%s %s/%s sndbuf(T=%d,R=%d) thr=%zu cons=%d hk=%d:", T.arrangement, T.arrangement == 2 ? (conn_active ? "c" : "a") : "",
+                  T.unix_family ? "unix" : "inet", w.engine.c_str(), T.sb_t, T.sb_r, T.threshold, T.cons, T.hk));
+    w.sig.add(T.hk);
     w.sig.add(0x7c9); w.sig.add(T.arrangement); w.sig.add(T.unix_family); w.sig.add(T.threshold); w.sig.add(T.cons); w.sig.add(conn_active);
     Transport tr = T.unix_family ? kUnix : kTcp;
     make_listen_addr(r);
